@@ -1689,3 +1689,341 @@ Proof.
   apply best_of_some in B. destruct B as [B _]. apply in_map_iff in B. destruct B as [i1 [E1 H1]].
   injection E1 as -> _. unfold tg_allok in K. rewrite Forall_forall in K. rewrite (K i H1). discriminate.
 Qed.
+
+(* ================================================================== *)
+(* S. frame: another initiator of the same target                      *)
+
+Lemma upsert_init_frame nok q q' v is :
+  (forall i, In i is -> match_iloc q (i_loc i) = true -> match_iloc q' (i_loc i) = false) ->
+  match_iloc q' q = false ->
+  option_map i_val (find_init (upsert_init nok q v is) q') = option_map i_val (find_init is q').
+Proof.
+  intros H Hn. unfold find_init. induction is as [|i r IH]; cbn [upsert_init find].
+  - cbn [i_loc]. now rewrite Hn.
+  - destruct (match_iloc q (i_loc i)) eqn:M; cbn [find i_loc].
+    + rewrite (H i (or_introl eq_refl) M). reflexivity.
+    + destruct (match_iloc q' (i_loc i)); [reflexivity|]. apply IH. intros j Hj. apply H. now right.
+Qed.
+
+(* a set_value with initiator q leaves the answer for q' unchanged when q' does
+   not resolve to the entry that q resolves to *)
+Lemma set_frame_initiator s id o l q l' q' v :
+  Inv s -> to_internal l = Some q -> to_internal l' = Some q' -> set_args_ok s id o (Some q) ->
+  (forall a, get_attr s id = Some a -> need_init a = true) ->
+  (forall g i, find_target (tgs_of s id) (o_type o) (o_gp o) (o_os o) = Some g -> In i (g_inits g) ->
+      match_iloc q (i_loc i) = true -> match_iloc q' (i_loc i) = false) ->
+  match_iloc q' q = false ->
+  let s' := fst (set_value s id (Some o) (Some l) 0 v) in
+  snd (get_value s' id (Some o) (Some l') 0) = snd (get_value s id (Some o) (Some l') 0).
+Proof.
+  intros I Tq Tq' A Hneed H Hn. cbn zeta.
+  assert (P : public_il (Some l) = Some (Some q)) by (unfold public_il; now rewrite Tq).
+  rewrite (set_value_core s id o _ v _ P).
+  pose proof (set_core_props s id o _ v I A) as [_ [_ [_ [_ [HA HT]]]]].
+  destruct A as [Ho [Sil [a [G [C N]]]]].
+  destruct (HA a G) as [a2 [G2 [_ [F2 C2]]]]. specialize (HT a G).
+  rewrite (get_value_snd _ id a2 o _ G2) by congruence.
+  rewrite (get_value_snd _ id a o _ G C).
+  replace (need_init a2) with (need_init a) by (unfold need_init; now rewrite F2).
+  rewrite <- get_in_ok, HT, get_in_ok. rewrite (Hneed a G).
+  unfold get_in, find_target. rewrite upsert_find_same.
+  - unfold find_target in H. destruct (find _ (tgs_of s id)) as [g|] eqn:F.
+    + unfold set_f. cbn [g_inits find_init_loc]. rewrite Tq'.
+      pose proof (upsert_init_frame true q q' v (g_inits g) (fun i => H g i eq_refl) Hn) as E.
+      destruct (find_init (upsert_init true q v (g_inits g)) q'), (find_init (g_inits g) q'); cbn [option_map] in E; congruence.
+    + unfold set_f. cbn [g_inits find_init_loc upsert_init]. rewrite Tq'.
+      unfold find_init. cbn [find i_loc]. now rewrite Hn.
+  - intros g. unfold tg_match. destruct (set_f_fields true (Some q) v g) as [-> [-> ->]]. reflexivity.
+  - unfold tg_match, set_f. cbn [g_type g_gp g_os]. rewrite !N.eqb_refl.
+    assert (Hg : o_gp o =? MEMATTR_GP_NONE = false) by (apply N.eqb_neq; apply (inv_wf s I); assumption).
+    rewrite Hg. reflexivity.
+Qed.
+
+(* instances: the two initiators are of different kinds, or two different objects *)
+Lemma match_iloc_exclusive q q' l :
+  (match q, q' with ICpu _, ICpu _ => False | _, _ => q <> q' end) ->
+  match_iloc q l = true -> match_iloc q' l = false.
+Proof.
+  destruct q as [c|t g], q' as [c'|t' g'], l as [x|lt lg]; cbn [match_iloc]; try reflexivity; try discriminate; try tauto.
+  intros Hne M. apply andb_true_iff in M. destruct M as [M1 M2]. apply N.eqb_eq in M1, M2. subst.
+  destruct (N.eqb_spec t' lt); [|reflexivity]. destruct (N.eqb_spec g' lg); [|reflexivity]. subst. now elim Hne.
+Qed.
+
+(* ================================================================== *)
+(* T. the internal entry point and the XML replay                      *)
+
+Definition set_fg (nok need : bool) (il : option iloc) (v : N) (g : imtg) : imtg :=
+  match il with
+  | Some q => if need then Imtg (g_type g) (g_gp g) (g_os g) (upsert_init nok q v (g_inits g)) (g_val g)
+              else Imtg (g_type g) (g_gp g) (g_os g) (g_inits g) v
+  | None => Imtg (g_type g) (g_gp g) (g_os g) (g_inits g) v
+  end.
+
+Lemma set_fg_fields nok need il v g :
+  g_type (set_fg nok need il v g) = g_type g /\ g_gp (set_fg nok need il v g) = g_gp g /\ g_os (set_fg nok need il v g) = g_os g.
+Proof. unfold set_fg. destruct il, need; auto. Qed.
+
+Lemma set_fg_tg_ok t nok need il v g : tg_ok t need g -> tg_ok t need (set_fg nok need il v g).
+Proof.
+  intros [G [O Sh]]. pose proof (set_fg_fields nok need il v g) as [F1 [F2 F3]].
+  split; [now rewrite F2|]. split; [eapply os_ok_same; eauto|].
+  intros ->. unfold set_fg. destruct il; cbn [g_inits]; auto.
+Qed.
+
+Lemma set_core_gen loaded nok s id ty gp os il v a :
+  get_attr s id = Some a -> (need_init a && match il with None => true | Some _ => false end) = false ->
+  a_conv a = false ->
+  set_core loaded nok s id ty gp os il v =
+  let a1 := if loaded && negb (a_valid a) then refresh_attr (m_topo s) a else a in
+  let r := upsert_tg ty gp os (set_fg nok (need_init a) il v) (a_tgs a1) in
+  (put_attr s id (Imattr (a_name a1) (a_flags a1) (a_conv a1) (if snd r then false else a_valid a1) (fst r)), Ok tt).
+Proof.
+  intros G N C. unfold set_core. rewrite G, N, C. cbn zeta.
+  unfold set_fg. destruct (upsert_tg _ _ _ _ _) as [tgs created] eqn:E. cbn [fst snd]. reflexivity.
+Qed.
+
+(* the cached-pointer bit only concerns object initiators *)
+Lemma upsert_init_nok_irrelevant nok c v is : upsert_init nok (ICpu c) v is = upsert_init true (ICpu c) v is.
+Proof. induction is as [|i r IH]; cbn [upsert_init]; [reflexivity|]. now rewrite IH. Qed.
+
+Lemma upsert_tg_ext ty gp os f f' l : (forall g, f g = f' g) -> upsert_tg ty gp os f l = upsert_tg ty gp os f' l.
+Proof.
+  intros E. induction l as [|g l IH]; cbn [upsert_tg]; [now rewrite E|]. now rewrite E, IH.
+Qed.
+
+Definition il_not_obj (il : option iloc) : Prop := match il with Some (IObj _ _) => False | _ => True end.
+
+Lemma set_core_nok_irrelevant loaded nok s id ty gp os il v :
+  il_not_obj il -> set_core loaded nok s id ty gp os il v = set_core loaded true s id ty gp os il v.
+Proof.
+  intros H. destruct (get_attr s id) as [a|] eqn:G; [|unfold set_core; now rewrite G].
+  destruct (need_init a && match il with None => true | Some _ => false end) eqn:N; [unfold set_core; now rewrite G, N|].
+  destruct (a_conv a) eqn:C; [unfold set_core; now rewrite G, N, C|].
+  rewrite !(set_core_gen _ _ s id ty gp os il v a G N C). cbn zeta.
+  rewrite (upsert_tg_ext ty gp os (set_fg nok (need_init a) il v) (set_fg true (need_init a) il v)); [reflexivity|].
+  intros g. unfold set_fg. destruct il as [[c|? ?]|]; [|destruct H|reflexivity].
+  destruct (need_init a); [|reflexivity]. now rewrite upsert_init_nok_irrelevant.
+Qed.
+
+(* ---- import states: what hwloc__xml_import_memattr* builds before the final refresh ---- *)
+
+Definition attr_imp (t : topo) (a : imattr) : Prop := attr_ok t a /\ (a_valid a = true -> a_tgs a = []).
+
+Record ImpInv (s : mstate) : Prop := {
+  ii_conv : conv_layout (m_attrs s);
+  ii_len : 2 <= lenN (m_attrs s);
+  ii_attrs : Forall (attr_imp (m_topo s)) (m_attrs s)
+}.
+
+Lemma ImpInv_put s id a a' :
+  ImpInv s -> get_attr s id = Some a -> attr_imp (m_topo s) a' -> a_conv a' = a_conv a -> ImpInv (put_attr s id a').
+Proof.
+  intros [C L A] G K E. unfold get_attr in G. constructor; cbn [put_attr m_topo m_attrs].
+  - intros j b Hb. destruct (N.eq_dec id j) as [<-|Hj].
+    + rewrite (nth_set_same _ _ _ _ G) in Hb. injection Hb as <-. rewrite E. now apply C.
+    + rewrite nth_set_other in Hb by assumption. now apply C.
+  - unfold lenN in *. now rewrite set_nthN_length.
+  - apply Forall_forall. intros b Hb. apply In_set_nthN in Hb. destruct Hb as [->|Hb]; [assumption|].
+    rewrite Forall_forall in A. auto.
+Qed.
+
+Lemma set_core_imp nok s id ty gp il v :
+  ImpInv s -> gp <> MEMATTR_GP_NONE ->
+  ImpInv (fst (set_core false nok s id ty gp MEMATTR_OS_NONE il v)) /\
+  m_topo (fst (set_core false nok s id ty gp MEMATTR_OS_NONE il v)) = m_topo s.
+Proof.
+  intros I Hgp. destruct (get_attr s id) as [a|] eqn:G; [|unfold set_core; rewrite G; auto].
+  destruct (need_init a && match il with None => true | Some _ => false end) eqn:N; [unfold set_core; rewrite G, N; auto|].
+  destruct (a_conv a) eqn:C; [unfold set_core; rewrite G, N, C; auto|].
+  rewrite (set_core_gen false nok s id ty gp MEMATTR_OS_NONE il v a G N C). cbn [andb]. cbn zeta. cbn [fst].
+  split; [|reflexivity].
+  set (f := set_fg nok (need_init a) il v).
+  set (r := upsert_tg ty gp MEMATTR_OS_NONE f (a_tgs a)).
+  assert (Ha : attr_imp (m_topo s) a).
+  { destruct I as [_ _ A]. rewrite Forall_forall in A. apply A. unfold get_attr in G. now apply nth_errN_In in G. }
+  destruct Ha as [[T1 [T2 [T3 T4]]] V].
+  assert (KEY : forall g, tkey (f g) = tkey g).
+  { intros g. unfold tkey, f. destruct (set_fg_fields nok (need_init a) il v g) as [-> [-> _]]. reflexivity. }
+  destruct (upsert_tg_keys ty gp MEMATTR_OS_NONE f (a_tgs a) KEY) as [U1 U2]. fold r in U1, U2.
+  assert (CR : a_valid a = true -> snd r = true).
+  { intros Hv. unfold r. rewrite (V Hv). reflexivity. }
+  apply (ImpInv_put s id a); [assumption|assumption| |reflexivity].
+  split.
+  - unfold attr_ok. replace (need_init (Imattr (a_name a) (a_flags a) (a_conv a) (if snd r then false else a_valid a) (fst r))) with (need_init a) by reflexivity.
+    cbn [a_tgs a_valid a_conv]. split; [|split; [|split]].
+    + apply upsert_tg_Forall; [assumption| |].
+      * intros g Hg. now apply set_fg_tg_ok.
+      * apply set_fg_tg_ok. split; [exact Hgp|]. split; [now left|reflexivity].
+    + rewrite U1. destruct (snd r) eqn:Er; [|now rewrite app_nil_r].
+      apply NoDup_app_end. split; [assumption|].
+      intros Hin. apply in_map_iff in Hin. destruct Hin as [x [Ex Hx]].
+      specialize (U2 eq_refl x Hx). rewrite (tkey_match ty gp MEMATTR_OS_NONE x Hgp Ex) in U2. discriminate.
+    + destruct (snd r) eqn:Er; [intros Hv; discriminate Hv|]. intros Hv. specialize (CR Hv). congruence.
+    + rewrite C. intros Hc. discriminate Hc.
+  - cbn [a_valid a_tgs]. destruct (snd r) eqn:Er; [intros Hv; discriminate Hv|]. intros Hv. specialize (CR Hv). congruence.
+Qed.
+
+Lemma register_imp s name flags :
+  ImpInv s -> ImpInv (fst (register s name flags)) /\ m_topo (fst (register s name flags)) = m_topo s.
+Proof.
+  intros I. pose proof (register_rules s name flags) as [R1 [R2 R3]]. cbn zeta in *.
+  destruct (reg_flags_ok flags) eqn:F.
+  2:{ destruct (R1 eq_refl) as [_ ->]. auto. }
+  destruct (name_used (m_attrs s) name) eqn:U.
+  { destruct (R2 eq_refl eq_refl) as [_ ->]. auto. }
+  destruct (R3 eq_refl eq_refl) as [_ [T [At _]]]. split; [|exact T].
+  destruct I as [C L A]. constructor; rewrite ?T, ?At.
+  - intros id a Ha. destruct (N.lt_ge_cases id (lenN (m_attrs s))) as [Hl|Hl].
+    + rewrite nth_errN_app_l in Ha by assumption. now apply C.
+    + destruct (N.eq_dec id (lenN (m_attrs s))) as [->|Hne].
+      * rewrite nth_errN_app_len in Ha. cbn [nth_errN N.eqb] in Ha. injection Ha as <-. cbn [a_conv].
+        symmetry. apply N.ltb_ge. assumption.
+      * exfalso. assert (X : nth_errN (m_attrs s ++ [Imattr name flags false true []]) id = None).
+        { apply nth_errN_none. unfold lenN in *. rewrite app_length. cbn [length]. lia. }
+        congruence.
+  - unfold lenN in *. rewrite app_length. lia.
+  - apply Forall_app. split; [assumption|]. constructor; [|constructor].
+    split; [unfold attr_ok; cbn [a_tgs]; repeat split; constructor|reflexivity].
+Qed.
+
+Definition imp_ok (s : mstate) (t : topo) : Prop := ImpInv s /\ m_topo s = t.
+
+Lemma xml_import_values_imp s t id need g :
+  imp_ok s t -> g_gp g <> MEMATTR_GP_NONE -> imp_ok (xml_import_values s id need g) t.
+Proof.
+  intros [I T] Hg. unfold xml_import_values. destruct need.
+  - assert (X : forall l s0, imp_ok s0 t ->
+       imp_ok (fold_left (fun s i => fst (set_core false false s id (g_type g) (g_gp g) MEMATTR_OS_NONE (Some (i_loc i)) (i_val i))) l s0) t).
+    { induction l as [|i l IH]; intros s0 [I0 T0]; [split; assumption|]. cbn [fold_left]. apply IH.
+      destruct (set_core_imp false s0 id (g_type g) (g_gp g) (Some (i_loc i)) (i_val i) I0 Hg) as [A B].
+      split; [assumption|congruence]. }
+    apply X. split; assumption.
+  - destruct (set_core_imp false s id (g_type g) (g_gp g) None (g_val g) I Hg) as [A B]. split; [assumption|congruence].
+Qed.
+
+Lemma xml_import_attr_imp s t e :
+  imp_ok s t -> Forall (fun g => g_gp g <> MEMATTR_GP_NONE) (a_tgs (snd e)) -> imp_ok (xml_import_attr s e) t.
+Proof.
+  intros H Hg. unfold xml_import_attr. destruct e as [id a]. cbn [snd] in Hg.
+  destruct ((id =? HWLOC_MEMATTR_ID_CAPACITY) || (id =? HWLOC_MEMATTR_ID_LOCALITY)); [assumption|].
+  destruct ((id <? HWLOC_MEMATTR_ID_MAX) && _); [assumption|].
+  assert (X : forall s1 i, imp_ok s1 t ->
+     imp_ok (fold_left (fun s g => xml_import_values s i (need_init a) g) (a_tgs a) s1) t).
+  { intros s1 i. revert s1. induction Hg as [|g l Hgg Hl IH]; intros s1 H1; [assumption|].
+    cbn [fold_left]. apply IH. now apply xml_import_values_imp. }
+  destruct (get_by_name s (a_name a)) as [i|e0].
+  - destruct (get_flags s i) as [f|]; [destruct (f =? a_flags a)|]; try assumption. now apply X.
+  - destruct H as [I T]. destruct (register_imp s (a_name a) (a_flags a) I) as [I' T'].
+    destruct (register s (a_name a) (a_flags a)) as [s' [i|e1]]; cbn [fst] in *.
+    + apply X. split; [assumption|congruence].
+    + split; [assumption|congruence].
+Qed.
+
+Lemma conv_layout_of_bools l :
+  map a_conv l = [true; true; false; false; false; false; false; false] -> conv_layout l.
+Proof.
+  intros E id a Ha. assert (X : nth_errN (map a_conv l) id = Some (a_conv a)) by (rewrite nth_errN_map, Ha; reflexivity).
+  rewrite E in X. cbn [nth_errN] in X.
+  destruct (N.eqb_spec id 0) as [E0|H0]; [injection X as <-; subst id; reflexivity|].
+  destruct (N.eqb_spec (N.pred id) 0) as [E1|H1]; [injection X as <-; replace id with 1 by lia; reflexivity|].
+  assert (G2 : (id <? 2) = false) by (apply N.ltb_ge; lia). rewrite G2.
+  repeat (match type of X with context [N.eqb ?x 0] => destruct (N.eqb_spec x 0) end; [injection X as <-; reflexivity|]).
+  discriminate X.
+Qed.
+
+Lemma refresh_tg_allok_shape t need g g' :
+  (need = false -> g_inits g = []) -> refresh_tg t need g = Some g' -> tg_allok g'.
+Proof.
+  intros Sh R. destruct need; [|apply (refresh_tg_allok t false g g'); [unfold tg_allok; rewrite (Sh eq_refl); constructor|exact R]].
+  unfold refresh_tg in R. destruct (lookup_target t g); [|discriminate].
+  destruct (filter_map (refresh_imi t) (g_inits g)) as [|i0 is] eqn:F; [discriminate|].
+  injection R as <-. unfold tg_allok. cbn [g_inits]. rewrite <- F.
+  apply Forall_forall. intros x Hx. apply in_filter_map in Hx. destruct Hx as [y [_ Hy]].
+  apply refresh_imi_out in Hy. tauto.
+Qed.
+
+(* the state after export + import + end of load *)
+Lemma xml_switch_Inv s t' : Inv s -> wf_topo t' -> Inv (xml_switch s t') /\ AllOk (xml_switch s t').
+Proof.
+  intros I W. unfold xml_switch.
+  set (s1 := fold_left xml_import_attr (number_from 0 (m_attrs s)) (MS t' init_attrs)).
+  assert (H1 : imp_ok s1 t').
+  { unfold s1.
+    assert (X : forall l s0, Forall (fun e : N * imattr => Forall (fun g => g_gp g <> MEMATTR_GP_NONE) (a_tgs (snd e))) l ->
+               imp_ok s0 t' -> imp_ok (fold_left xml_import_attr l s0) t').
+    { induction l as [|e l IH]; intros s0 Hl H0; [assumption|]. inversion Hl; subst. cbn [fold_left]. apply IH; [assumption|].
+      now apply xml_import_attr_imp. }
+    apply X.
+    - pose proof (number_from_snd 0 (m_attrs s)) as F. rewrite Forall_forall in *. intros e He. specialize (F e He).
+      pose proof (inv_attrs s I) as A. rewrite Forall_forall in A.
+      destruct (A (snd e) F) as [T _]. rewrite Forall_forall in *. intros g Hg. apply (T g Hg).
+    - split; [|reflexivity]. constructor; cbn [m_attrs m_topo].
+      + apply conv_layout_of_bools. reflexivity.
+      + vm_compute. discriminate.
+      + apply Forall_forall. intros a Ha. unfold init_attrs in Ha. apply in_map_iff in Ha.
+        destruct Ha as [[[n f] i] [<- _]]. split; [unfold attr_ok; cbn [a_tgs]; repeat split; constructor|reflexivity]. }
+  destruct H1 as [[C L A] T]. rewrite T in A.
+  assert (AOK : forall a, In a (m_attrs s1) -> attr_ok t' (if a_conv a then a else Imattr (a_name a) (a_flags a) (a_conv a) false (a_tgs a))).
+  { intros a Ha. rewrite Forall_forall in A. destruct (A a Ha) as [[T1 [T2 [T3 T4]]] V].
+    destruct (a_conv a) eqn:Ec; [exact (conj T1 (conj T2 (conj T3 (fun _ => T4 eq_refl))))|].
+    unfold attr_ok, need_init. cbn [a_tgs a_flags a_valid a_conv].
+    split; [exact T1|]. split; [exact T2|]. split; [intros Hv; discriminate Hv|intros Hc; discriminate Hc]. }
+  split.
+  - constructor; cbn [m_topo m_attrs].
+    + exact W.
+    + intros id b Hb. unfold refresh_all in Hb. rewrite nth_errN_map, need_refresh_nth in Hb.
+      destruct (nth_errN (m_attrs s1) id) as [a|] eqn:E; [|discriminate]. cbn [option_map] in Hb. injection Hb as <-.
+      rewrite cur_conv. rewrite <- (C id a E). destruct (a_conv a) eqn:Ec; [exact Ec|reflexivity].
+    + unfold lenN, refresh_all, need_refresh in *. now rewrite !map_length.
+    + unfold refresh_all, need_refresh. rewrite map_map. apply Forall_forall. intros b Hb.
+      apply in_map_iff in Hb. destruct Hb as [a [<- Ha]]. apply cur_ok. now apply AOK.
+  - unfold AllOk. cbn [m_attrs]. unfold refresh_all, need_refresh. rewrite map_map. apply Forall_forall. intros b Hb.
+    apply in_map_iff in Hb. destruct Hb as [a [<- Ha]].
+    rewrite Forall_forall in A. destruct (A a Ha) as [[T1 [T2 [T3 T4]]] V].
+    destruct (a_conv a) eqn:Ec.
+    + assert (E0 : a_tgs a = []) by (apply T4; reflexivity).
+      unfold cur. unfold attr_allok. destruct (a_valid a); [rewrite E0; constructor|].
+      unfold refresh_attr. cbn [a_tgs]. rewrite E0. constructor.
+    + unfold cur. cbn [a_valid]. unfold attr_allok, refresh_attr. cbn [a_tgs]. apply Forall_forall. intros g' Hg'.
+      apply in_filter_map in Hg'. destruct Hg' as [g [Hg R]]. rewrite Forall_forall in T1.
+      destruct (T1 g Hg) as [_ [_ Sh]]. unfold need_init in R. cbn [a_flags] in R. exact (refresh_tg_allok_shape _ _ _ _ Sh R).
+Qed.
+
+(* ---- histories including the internal entry point and XML ---- *)
+
+Definition op_ok_x (s : mstate) (o : op) : Prop :=
+  match o with
+  | OISet _ ty gp os il _ =>
+      (exists tgt, In tgt (t_objs (m_topo s)) /\ ty = o_type tgt /\ gp = o_gp tgt /\ os = o_os tgt) /\
+      il_not_obj il /\ il_stable (m_topo s) il
+  | OXml t' => wf_topo t'
+  | _ => op_ok s o
+  end.
+
+Fixpoint hist_ok_x (s : mstate) (ops : list op) : Prop :=
+  match ops with
+  | [] => True
+  | o :: r => op_ok_x s o /\ hist_ok_x (fst (step s o)) r
+  end.
+
+Lemma step_InvX s o : Inv s /\ AllOk s -> op_ok_x s o -> Inv (fst (step s o)) /\ AllOk (fst (step s o)).
+Proof.
+  intros [I A] K. destruct o; try (split; [now apply step_Inv|now apply step_AllOk]).
+  - (* OISet *) cbn [op_ok_x] in K. destruct K as [[tgt [Ht [-> [-> ->]]]] [Hno Hst]]. cbn [step].
+    destruct ((id =? HWLOC_MEMATTR_ID_CAPACITY) || (id =? HWLOC_MEMATTR_ID_LOCALITY)); [cbn [fst]; auto|].
+    rewrite fst_let, (set_core_nok_irrelevant true false s id _ _ _ il v Hno).
+    split; [|now apply set_core_allok].
+    unfold set_core. destruct (get_attr s id) as [a|] eqn:G; [|exact I].
+    destruct (need_init a && match il with None => true | Some _ => false end) eqn:N; [exact I|].
+    destruct (a_conv a) eqn:C; [exact I|].
+    assert (SA : set_args_ok s id tgt il) by (split; [assumption|]; split; [assumption|]; exists a; auto).
+    pose proof (set_core_props s id tgt il v I SA) as [_ [I' _]].
+    unfold set_core in I'. rewrite G, N, C in I'. exact I'.
+  - (* OXml *) cbn [op_ok_x] in K. cbn [step fst]. now apply xml_switch_Inv.
+Qed.
+
+Lemma run_InvX s ops : Inv s /\ AllOk s -> hist_ok_x s ops -> Inv (run s ops) /\ AllOk (run s ops).
+Proof.
+  revert s. induction ops as [|o r IH]; intros s I H; [exact I|].
+  cbn [hist_ok_x] in H. destruct H as [H1 H2]. unfold run. cbn [fold_left]. apply IH; [now apply step_InvX|assumption].
+Qed.
